@@ -46,6 +46,39 @@ CHECKS = {
    text="Coq theorems for ALL byte strings (< 2^31) and ANY inflate function: NewReader, SeekRef, SeekLog, RefsFor and full scans never reach a panic site and never exhaust their loop bounds (termination measures: file offset strictly increases across blocks, child offset strictly below its index block, window doubling). The termination proof found a hang (index cycle) that the first repair had missed; fixed. Tied on every run: outcome class and records of Go (recover + timeout) vs model on mutations of valid tables, crafted extreme length fields and a corpus",
    design="5/C18", technique="Coq proof (safety + termination of the reader model) + differential fuzz tie",
    note="allocation is bounded by input size and by what zlib returns (zlib's expansion is outside the model); Go runtime faults other than slice/nil/explicit panics are observed by the harness only"),
+ "C04": dict(
+   text="Coq theorem c04_all_traces: for EVERY initial directory, scripts, schedule at fs-operation granularity (crashes included), table sizes and retry bound, the trace of the protocol model satisfies c04_ok: after every fs operation the listed tables hold exactly the committed transactions in commit order, Add succeeds iff its transaction committed, only lock failures / rejections as errors. The model (free-monad programs in the code's order over an abstract fs) is tied on every run to the Go stack code under a deterministic scheduler: the Go trace (ops, results, snapshots) must equal the model's trace on the same schedule; the extracted c04_ok also judges every Go trace directly",
+   design="6", technique="Coq proof (Hoare-style judgement per API program + global invariant over all interleavings) + trace-equality tie under a scheduler",
+   note="POSIX atomicity of O_EXCL create / rename / unlink-with-open-fd, fresh table names and the absence of I/O faults are assumptions; multi-table Additions and Clean are not in the Coq model (their traces are judged by the extracted predicates only); tables are abstracted to (range, transactions): what compaction does to records is C07"),
+ "C05": dict(
+   text="Coq theorem c05_all_traces (all schedules, crashes included): after every fs operation every table named in tables.list exists, ranges strictly increasing, and no successful remove hits a listed table; tie and direct judging of Go traces as C04",
+   design="6", technique="Coq proof (global invariant; dropped ids are never re-listed) + trace-equality tie under a scheduler",
+   note="as C04; 'complete, valid table of the stack's hash type' at the byte level is checked on the Go side by decoding every listed table in every snapshot"),
+ "C06": dict(
+   text="c06_ok = c04_ok && c05_ok && c10_ok on traces with a crash before every step of every operation kind, other handles continuing afterwards; C04 and C05 are theorems for all schedules with crashes (a crash is a transition of the model), the C10 part is judged on the Go traces and on the model tie (its all-traces proof is in progress)",
+   design="6", technique="Coq proof (crash transitions are part of the C04/C05 theorems) + crash-point enumeration under the scheduler",
+   note="process crashes only (no power loss: the property excludes it); as C04"),
+ "C08": dict(
+   text="Coq theorem c08_all_traces with NO hypotheses: in every trace of the model every successful remove / rename of a *.lock path is by the handle whose exclusive create made it, and no lock path has two owners; proved from wp_call_prog: every API program respects lock ownership whatever the file system answers. Tie and direct judging as C04",
+   design="6", technique="Coq proof (ownership Hoare logic over the free-monad programs + world invariant) + trace-equality tie",
+   note="as C04"),
+ "C09": dict(
+   text="trace predicate c09_ok (stale undisturbed Add: ErrLockFailure, directory unchanged, handle refreshed; up-to-date, lock-free undisturbed Add: commits) judged on every Go trace of the stale-handle and pair scenarios; model tied trace-for-trace; all-traces Coq proof in progress",
+   design="6", technique="extracted Coq trace predicate + trace-equality tie (proof pending)",
+   note="as C04; no all-traces theorem yet for this predicate"),
+ "C10": dict(
+   text="trace predicate c10_ok (every read = a prefix of the commit order, monotone per handle, matching 'shared'; after every call all held readers open and the held names are one version of tables.list) judged on every Go trace incl. the reload give-up clock; model tied trace-for-trace; all-traces Coq proof in progress",
+   design="6", technique="extracted Coq trace predicate + trace-equality tie (proof pending)",
+   note="as C04; when the time-bounded reload loop gives up the handle keeps its previous snapshot (one committed version, all readers open) and reload reports success: see DESIGN.md C10-giveup"),
+ "C16": dict(
+   text="Coq theorem idle_owns_nothing (all schedules): a handle that is not inside a call owns no lock file and no temp file; trace predicate c16_ok (quiescent directory = tables.list + listed tables; Close/Clean succeed also on an empty stack; nothing panics) judged on every Go trace; all-traces proof of c16_ok in progress",
+   design="6", technique="Coq proof (ownership logic) + extracted trace predicate + trace-equality tie",
+   note="as C04"),
+ "C15": dict(
+   category="translation_validation",
+   text="the C implementation of /repo/c is built from the working tree on every run; for generated tables (NUL-free) Go writes / C reads and C writes / Go reads, every scan, seek and RefsFor compared with the records written; every C-written file is judged by the extracted Coq spec decoder and read by the model reader (= what the Go reader must return). Found and fixed 5 defects of the C twin",
+   design="6/C15", technique="differential + translation validation with the extracted Coq spec decoder as judge",
+   note="the C code is not modelled in Coq (no C semantics available in this sandbox): its behaviour is compared, not proved; stack directories are not exchanged, table files only"),
 }
 
 NA_REASON = "not built yet in this round (see DESIGN.md section 7 for the order of work); no check is registered, nothing is claimed"
